@@ -14,6 +14,7 @@ import (
 
 	"github.com/superfly/litefs"
 	lhttp "github.com/superfly/litefs/http"
+	"github.com/superfly/litefs/verif/crash"
 	"github.com/superfly/litefs/verif/node"
 	"github.com/superfly/litefs/verif/pager"
 	"github.com/superfly/litefs/verif/ref"
@@ -68,6 +69,15 @@ type CNode struct {
 	Opts   NodeOpts
 	Up     bool
 	DirOverride string // if set, the node lives there instead of Base/<name>
+
+	// Supervise: Store.Exit is process death. The data directory is frozen at that
+	// instant and the node is restarted on the frozen copy by the next call of
+	// Cluster.Supervise (as a service manager would restart the process).
+	Supervise bool
+	ExitLog   []int // every exit code ever reported by this node
+	exitImage string
+	exitN     int
+	emu       sync.Mutex
 
 	states map[string]*dbState
 }
@@ -134,7 +144,48 @@ func (n *CNode) Start() error {
 	}
 	n.Up = true
 	n.states = map[string]*dbState{}
+	nd := n.Node
+	nd.OnExit = func(code int) {
+		n.emu.Lock()
+		defer n.emu.Unlock()
+		n.ExitLog = append(n.ExitLog, code)
+		if n.Supervise && n.exitImage == "" && n.Node == nd {
+			n.exitN++
+			img := filepath.Join(n.cl.Base, fmt.Sprintf("%s.exit-%d", n.Name, n.exitN))
+			if err := crash.CopyDir(nd.Dir, img); err == nil {
+				n.exitImage = img
+			}
+		}
+	}
 	return nil
+}
+
+// Exited returns every exit code the node has reported so far (across restarts).
+func (n *CNode) Exited() []int {
+	n.emu.Lock()
+	defer n.emu.Unlock()
+	return append([]int(nil), n.ExitLog...)
+}
+
+// Supervise restarts every supervised node that called Store.Exit on the copy
+// of its data directory taken at that instant. It returns the restarted nodes.
+func (cl *Cluster) Supervise() (restarted []*CNode, err error) {
+	for _, n := range cl.Nodes {
+		n.emu.Lock()
+		img := n.exitImage
+		n.exitImage = ""
+		n.emu.Unlock()
+		if img == "" || !n.Up {
+			continue
+		}
+		n.Stop()
+		n.DirOverride = img
+		if e := n.Start(); e != nil {
+			return restarted, fmt.Errorf("node %s cannot restart after Store.Exit on the directory it left: %w", n.Name, e)
+		}
+		restarted = append(restarted, n)
+	}
+	return restarted, nil
 }
 
 // Stop closes the node (server first, then the store). The directory stays.
@@ -230,6 +281,9 @@ func (n *CNode) connectedTo(p *CNode) bool {
 func (cl *Cluster) WaitConverged(d time.Duration) error {
 	deadline := time.Now().Add(d)
 	for {
+		if _, err := cl.Supervise(); err != nil {
+			return err
+		}
 		p := cl.Primary()
 		var lag string
 		if p == nil {
@@ -313,6 +367,7 @@ func (n *CNode) state(db string) (*dbState, error) {
 	model.Img = img
 	model.Change = headerChange(img)
 	n.cl.nextOwner++
+	model.SetSaltSeed(uint32(n.cl.nextOwner)) // salts are random in SQLite: never equal across nodes or reopenings
 	conn := pager.NewConn(n.M, model, n.cl.nextOwner)
 	conn.JournalMode, conn.Sync, conn.SectorSize = cfg.JournalMode, cfg.Sync, cfg.Sector
 	st = &dbState{model: model, conn: conn, knownPos: pos}
@@ -659,4 +714,36 @@ func (n *CNode) CommitReturned(db string) bool {
 		return st.conn.CommitReturned
 	}
 	return false
+}
+
+// TryWrite is Write without any waiting: a busy lock is reported at once
+// (used to probe that writers are excluded).
+func (n *CNode) TryWrite(db string, tx pager.WalTx) (WriteResult, error) {
+	st, err := n.state(db)
+	if err != nil {
+		return WriteResult{}, err
+	}
+	st.conn.BusyTimeout = time.Millisecond
+	defer func() {
+		if st2 := n.states[db]; st2 != nil {
+			st2.conn.BusyTimeout = 0
+		}
+	}()
+	return n.writeOnce(db, tx)
+}
+
+// ModelSize returns the page count of the image committed at the node's
+// current position of db (at least 2, so that page 2 exists).
+func (n *CNode) ModelSize(db string, cl *Cluster) uint32 {
+	if img, ok := cl.Hist.Lookup(db, n.Pos(db)); ok && img.N() >= 2 {
+		return img.N()
+	}
+	return 2
+}
+
+// Armed reports whether a one-shot fault of the halt / commit protocol is still pending.
+func (fc *FaultClient) Armed() bool {
+	fc.mu.Lock()
+	defer fc.mu.Unlock()
+	return fc.DropHaltResp > 0 || fc.DropCommitResp > 0 || fc.DropReleaseResp > 0 || fc.DupCommit > 0
 }
